@@ -232,8 +232,8 @@ SORTED_NOTE = ("Trusted: TLC, Json, an in-process recorder wrapping sorted_algor
                "the two search routines; Simulator._iteration is set directly when a lattice case is staged. EVSEs are "
                "continuous-from-zero or finite-rate; limits <= 100 A; angles {30,-90,150} or single phase; distinct "
                "priority keys; the estimator is a dict session_id -> bound (closed loop: the real SimpleRampdown); "
-               "undecidable float coincidences are counted non-decisive. The minimum pilot of uninterrupted charging is stored "
-               "truncated to whole amperes by the code (integer min_rates array): modelled as it is (TruncA). A third of the "
+               "undecidable float coincidences are counted non-decisive. Lattices include finite-rate EVSEs with fractional levels, coefficients above 1, a 7-minute "
+               "period and int-typed rates (this found the truncation defect fixed by d6a4472). A third of the "
                "lattice cases run after the same algorithm object scheduled on a perturbed, then reconfigured, infrastructure "
                "(history independence); a quarter call schedule() with caller-built SessionInfo objects.")
 CHECKS["C07"] = dict(
